@@ -8,7 +8,7 @@ get_path() + the same sliced / projected indices reports the same) is required.
 """
 from . import _hist
 from .. import mc, tla
-from . import _repo
+from . import _repo, _build
 
 LEVEL = "model_checking"
 
@@ -37,8 +37,11 @@ def run(run):
     design_level(run)
     _hist.run_histories(run, "figures", f"c04_{run.tier}")
     _repo.run_repo_traces(run, "figures", "c04")
+    _build.run_build(run, f"c04_{run.tier}")
     run.cov["rule"] = ("histories = TLC behaviours of spec/Tree.tla concretised to the public operations; distinct by "
-                       "(network, initial tree, concrete operation sequence); after every step every reported figure is "
+                       "(network, initial tree, concrete operation sequence); plus the calls the repository's own tests make (recorded, "
+                       "judged by the same judge) and tree construction behaviours of spec/Build.tla replayed through "
+                       "contract_nodes_pair / contract_nodes / autocomplete (BuildJudge); after every step every reported figure is "
                        "compared with its definition by TLC and with a from-scratch rebuild")
     run.assumptions += ["observation happens on tree.copy() so that queries do not heal stale caches of the object under test"]
 
